@@ -231,7 +231,7 @@ fn n_cases(target: &str, seed: &[u8], family: &str, tier: Tier) -> usize {
         "utf8-insert" => (n + 1) * 3,
         "bad-utf8" => (n + 1) * 2,
         "nesting" => {
-            if target == "json" || target == "config" {
+            if target == "json" || target == "config" || target == "wsmsg" {
                 8
             } else {
                 0
@@ -433,6 +433,18 @@ fn make_case(target: &str, seed: &[u8], family: &str, k: usize, rng_seed: u64) -
         }
         "nesting" => {
             let depth = [10usize, 200, 257, 1000, 5000, 20_000, 50_000, 100_000][k % 8];
+            if target == "wsmsg" {
+                // the WebSocket analogue of nesting: a long run of empty control frames in front of
+                // one data frame (a reader that recurses per control frame runs out of stack)
+                let n = [1000usize, 1000, 30_000, 30_000, 30_000, 30_000, 100_000, 100_000][k % 8];
+                let op = if k % 8 == 4 || k % 8 == 5 { 0x89u8 } else { 0x8Au8 };
+                let mut v = Vec::with_capacity(2 * n + 8);
+                for _ in 0..n {
+                    v.extend([op, 0x00]);
+                }
+                v.extend(b"\x81\x05hello");
+                return (v, None);
+            }
             if target == "json" {
                 let open = if k % 2 == 0 { "[" } else { "{\"a\":" };
                 let close = if k % 2 == 0 { "]" } else { "}" };
@@ -570,7 +582,7 @@ fn run_wsmsg(data: &[u8], bytewise: bool, reset: bool, nonblocking: bool) -> (Ou
     use humsim::sim;
     let data = data.to_vec();
     let mut p = SimParams::basic(7, "rr");
-    p.max_decisions = 200_000;
+    p.max_decisions = if data.len() > 10_000 { 4_000_000 } else { 200_000 };
     if bytewise {
         p.default_seg = Some("onebyte".into());
     }
@@ -646,7 +658,7 @@ impl Prop for C03 {
         false
     }
     fn rule(&self) -> &'static str {
-        "Per target (HTTP request parser, HTTP response parser, WebSocket frame decoder, WebSocket message reader blocking and non-blocking over a simulated socket, JSON parser, config parser incl. include files) and per seed message (2..6 fixed ones per target; the thorough tier adds 96 generated ones per target: requests, responses, frame scripts, JSON texts and config files of at most 500 bytes), the fault families are enumerated completely: EOF at EVERY offset, ConnectionReset at every offset, every single-byte substitution from a 16-symbol protocol alphabet at every offset, every single bit flip, each CR/LF/colon/space/comma/brace/quote deleted and doubled, every contiguous span of 1..24 bytes deleted at every offset, every number in the message replaced by 22 boundary and huge decimal/hex values (frames: 14 claimed lengths up to 2^64-1 with 10 bytes of data), a 2/3/4-byte UTF-8 character and an invalid byte inserted at every position, nesting to depth 100000, all strings of up to 3-4 tokens over the protocol alphabets (config: additionally all strings of up to 4 tokens inside an open `server {` section), plus seeded random edits; each case delivered all-at-once and one byte per read. Distinct non-trivial = distinct (target, seed, family, case) that differs from the valid seed; evaluations = parser calls."
+        "Per target (HTTP request parser, HTTP response parser, WebSocket frame decoder, WebSocket message reader blocking and non-blocking over a simulated socket, JSON parser, config parser incl. include files) and per seed message (2..6 fixed ones per target; the thorough tier adds 96 generated ones per target: requests, responses, frame scripts, JSON texts and config files of at most 500 bytes), the fault families are enumerated completely: EOF at EVERY offset, ConnectionReset at every offset, every single-byte substitution from a 16-symbol protocol alphabet at every offset, every single bit flip, each CR/LF/colon/space/comma/brace/quote deleted and doubled, every contiguous span of 1..24 bytes deleted at every offset, every number in the message replaced by 22 boundary and huge decimal/hex values (frames: 14 claimed lengths up to 2^64-1 with 10 bytes of data), a 2/3/4-byte UTF-8 character and an invalid byte inserted at every position, nesting to depth 100000 (WebSocket messages: runs of 1000..100000 empty ping or pong frames in front of a data frame), all strings of up to 3-4 tokens over the protocol alphabets (config: additionally all strings of up to 4 tokens inside an open `server {` section), plus seeded random edits; each case delivered all-at-once and one byte per read. Distinct non-trivial = distinct (target, seed, family, case) that differs from the valid seed; evaluations = parser calls."
     }
     fn assumptions(&self) -> Vec<String> {
         vec![
@@ -743,7 +755,9 @@ impl Prop for C03 {
                     let base = alloc::begin_case();
                     let (outcome, slack) = if target == "wsmsg" {
                         let (o, _) = run_wsmsg(&data, di == 1, end_err.is_some(), k % 2 == 1);
-                        (o, 512 * 1024)
+                        // (the simulated network itself keeps a queue entry per segment: with one byte
+                        // per segment that is harness memory proportional to the input)
+                        (o, 512 * 1024 + 128 * data.len())
                     } else {
                         let mut plan = if di == 0 { Plan::whole() } else { Plan::bytewise() };
                         plan.end_error = end_err;
